@@ -1873,7 +1873,8 @@ def rw_items_loop(func, k):
 def _free_loop_name(func, v, inside, par, stop=None):
     """every occurrence of the name v outside the node set `inside` is bound by an enclosing loop / comprehension of its own
     (so a new loop variable v cannot be observed there)"""
-    site = next((n for n in ast.walk(func) if id(n) in inside), None)
+    # (context and operator objects such as ast.Store() / ast.Add() are shared between nodes: they are no positions in the tree)
+    site = next((n for n in ast.walk(func) if id(n) in inside and isinstance(n, (ast.stmt, ast.expr, ast.comprehension))), None)
     q = par.get(site) if site is not None else None
     while q is not None and q is not func:
         # the converted statement itself sits in a loop over v: the new binding would clobber that loop's variable
@@ -3283,8 +3284,9 @@ def rw_append_augadd(func, k):
             t_, v = _append_stmt(st)
             if t_ is not None and isinstance(t_, ast.Name) and _local_list(func, t_.id):
                 sites.append((blk, st, 'aug'))
-            if isinstance(st, ast.AugAssign) and isinstance(st.op, ast.Add) and isinstance(st.target, ast.Name) and isinstance(st.value, ast.List) and len(st.value.elts) == 1 \
-                    and not isinstance(st.value.elts[0], ast.Starred) and _local_list(func, st.target.id):
+            if isinstance(st, ast.AugAssign) and isinstance(st.op, ast.Add) and isinstance(st.target, ast.Name) and isinstance(st.value, ast.List) and 1 <= len(st.value.elts) <= 6 \
+                    and not any(isinstance(e_, ast.Starred) for e_ in st.value.elts) and _local_list(func, st.target.id) \
+                    and not any(isinstance(w, ast.Name) and w.id == st.target.id for w in ast.walk(st.value)):
                 sites.append((blk, st, 'app'))
     if k >= len(sites):
         return False
@@ -3292,7 +3294,11 @@ def rw_append_augadd(func, k):
     if how == 'aug':
         new = ast.AugAssign(target=ast.Name(id=st.value.func.value.id, ctx=ast.Store()), op=ast.Add(), value=ast.List(elts=[st.value.args[0]], ctx=ast.Load()))
     else:
-        new = ast.Expr(value=ast.Call(func=ast.Attribute(value=ast.Name(id=st.target.id, ctx=ast.Load()), attr='append', ctx=ast.Load()), args=[st.value.elts[0]], keywords=[]))
+        # L += [a, b]: the elements are evaluated left to right and appended in that order
+        news = [fix(ast.Expr(value=ast.Call(func=ast.Attribute(value=ast.Name(id=st.target.id, ctx=ast.Load()), attr='append', ctx=ast.Load()), args=[e_], keywords=[])), st) for e_ in st.value.elts]
+        i_ = blk.index(st)
+        blk[i_:i_ + 1] = news
+        return True
     blk[blk.index(st)] = fix(new, st)
     return True
 
@@ -3410,7 +3416,7 @@ def _clone(node):
         return copy.deepcopy(node)
 
 
-ENABLERS = {rw_subscripted_literal: [rw_extract_temp], rw_unpack_name: [rw_extend_literal, rw_inline_temp], rw_extend_literal: [rw_unpack_name, rw_inline_temp], rw_loop_to_comp: [rw_inline_temp], rw_keyword_to_positional: [rw_extract_temp, rw_keyword_to_positional], rw_list_call_to_comp: [rw_comp_to_loop], rw_zip_to_index: [rw_extract_temp, rw_use_alias], rw_comp_to_loop: [rw_enumerate_to_index, rw_zip_to_index, rw_split_append_concat, rw_append_comp_to_loop]}
+ENABLERS = {rw_subscripted_literal: [rw_extract_temp], rw_unpack_name: [rw_extend_literal, rw_inline_temp, rw_append_augadd], rw_extend_literal: [rw_unpack_name, rw_inline_temp], rw_loop_to_comp: [rw_inline_temp], rw_keyword_to_positional: [rw_extract_temp, rw_keyword_to_positional], rw_list_call_to_comp: [rw_comp_to_loop], rw_zip_to_index: [rw_extract_temp, rw_use_alias], rw_comp_to_loop: [rw_enumerate_to_index, rw_zip_to_index, rw_split_append_concat, rw_append_comp_to_loop]}
 REMOVALS = (rw_drop_tail_return, rw_drop_tail_continue, rw_drop_noop_pass, rw_fuse_loops)
 
 
@@ -3552,6 +3558,16 @@ def guided(func, score, max_rounds=30, budget=2500, dirty=None):
         if ap:
             func.body[a:b] = shell.body
             applied.extend(ap)
+    # the windows see only the part of the reference between their matched neighbours; where identical lines occur several times (two loops
+    # with the same header) that part can be cut wrongly.  One bounded pass over the whole function picks up what is left
+    try:
+        left = sorted(dirty(func))
+    except Exception:
+        left = []
+    if left:
+        Ctx.window_outside = []
+        ap = _search(func, score, 6, 600)
+        applied.extend(ap)
     return applied
 
 
